@@ -81,6 +81,8 @@ const (
 	BindEmptyResult
 	BindOther
 	BindClose
+	BindInMessage // the bind payload inside a <message type='result'/>: not an IQ, so no answer to the request
+	BindForeignID // an IQ result with the payload, but for another request id
 )
 
 const (
@@ -88,6 +90,8 @@ const (
 	SessionError
 	SessionOther
 	SessionClose
+	SessionInPresence // <presence type='result'/>: not an IQ
+	SessionForeignID  // an IQ result for another request id
 )
 
 const (
@@ -618,6 +622,10 @@ func (sc *SrvConn) handle(it *Item) {
 			sc.Send("<message xmlns='jabber:client'><body>busy</body></message>")
 		case BindClose:
 			sc.Close()
+		case BindInMessage:
+			sc.Send(fmt.Sprintf("<message type='result' id='%s'><bind xmlns='%s'><jid>%s</jid></bind></message>", id, nsBind, xmlEscape(sc.S.BoundJid)))
+		case BindForeignID:
+			sc.Send(fmt.Sprintf("<iq type='result' id='not-%s'><bind xmlns='%s'><jid>%s</jid></bind></iq>", id, nsBind, xmlEscape(sc.S.BoundJid)))
 		}
 	case el.Local == "iq" && el.Child(nsSession, "session") != nil:
 		sc.delay()
@@ -631,6 +639,10 @@ func (sc *SrvConn) handle(it *Item) {
 			sc.Send("<message xmlns='jabber:client'><body>busy</body></message>")
 		case SessionClose:
 			sc.Close()
+		case SessionInPresence:
+			sc.Send(fmt.Sprintf("<presence type='result' id='%s'/>", id))
+		case SessionForeignID:
+			sc.Send(fmt.Sprintf("<iq type='result' id='not-%s'/>", id))
 		}
 	case el.Is(nsComponent, "handshake") || (sc.S.Component && el.Local == "handshake"):
 		sc.delay()
